@@ -125,9 +125,34 @@ def cases(rng, tier):
         n, ops = g_ops(rng)
         out.append({"op": "C12.ops", "tag": "protocol", "n": n, "ops": ops})
     for k in range(40 if tier == "quick" else 500):
-        out.append({"op": None, "tag": "method", "method": fc.g_method(rng)})
+        m = fc.g_method(rng, n_phases=2 if k % 2 else None)
+        if k % 2:
+            add_stage_blocks(rng, m)
+        out.append({"op": None, "tag": "method-stages" if k % 2 else "method", "method": m})
     precompute(out)
     return out
+
+
+def add_stage_blocks(rng, m):
+    """every phase gets a predictor/corrector block whose calls have EXPRESSION arguments (argument isolation
+    then creates statements with the same generated ids - tmp, tmp_0, … - in every phase) and whose user-type
+    temporaries have the same names in every phase and are read again afterwards"""
+    V, C = fc.V, fc.C
+    for ph in m["phases"]:
+        block = [
+            ["stmt", ["call", ["v1"], "<func>rhs", [V("<t>"), V("<state>y")], []]],
+            ["stmt", ["call", ["v2"], "<func>rhs", [["+", [V("<t>"), V("<dt>")]], ["+", [V("<state>y"), ["*", [V("<dt>"), V("v1")]]]]], []]],
+            ["stmt", ["call", ["w"], "<func>rhs", [["+", [V("<t>"), ["*", [V("<dt>"), C(2)]]]], ["+", [V("v1"), V("v2")]]], []]],
+            ["stmt", ["assign", "<state>y", None, ["+", [V("<state>y"), ["*", [V("<dt>"), V("v2")]]] +
+                                                   rng.sample([V("v1"), V("w")], rng.randint(0, 2))], []]]]
+        # the phases must differ in WHERE a temporary is used last: trailing reads in some phases only
+        for v in ("v1", "v2", "w"):
+            if rng.random() < 0.4:
+                block.append(["stmt", ["assign", "<state>y", None, ["+", [V("<state>y"), V(v)]], []]])
+        if rng.random() < 0.3:
+            block.insert(3, ["stmt", ["assign", "v1", None, V("w"), []]])
+        pos = 3 if ph["name"] == "p0" else 0
+        ph["prog"][pos:pos] = block
 
 
 def key(case):
